@@ -430,7 +430,7 @@ func ruleC05R6(c *Ctx) {
 	c.check(okGen, "C05.R6", nc, "new chunks get Generate() as id", nc.Pos(), "newChunkFunc(idGenerator.Generate(), …)", "new chunks are not given a generated id")
 	// generator: counters only under its mutex
 	gen := c.P.Fn(aGenerate)
-	states := lockStates(gen, func(s ssa.CallInstruction) lockKind {
+	mutexClass := func(s ssa.CallInstruction) lockKind {
 		switch extName(s.Common().StaticCallee()) {
 		case "(*sync.Mutex).Lock":
 			return lockAcquireW
@@ -438,7 +438,12 @@ func ruleC05R6(c *Ctx) {
 			return lockRelease
 		}
 		return lockNone
-	})
+	}
+	// Generate and its private helpers; a helper starts in the lock state of its call sites
+	genBody := map[*ssa.Function]map[ssa.Instruction]int{}
+	for _, g := range c.regionOf(gen) {
+		genBody[g] = c.lockStatesR(g, mutexClass)
+	}
 	na := 0
 	for _, fld := range []string{"output/shared.chunkIDGenerator.epochNano", "output/shared.chunkIDGenerator.sequence"} {
 		for _, f := range c.P.universe {
@@ -447,7 +452,7 @@ func ruleC05R6(c *Ctx) {
 					continue // constructor: not yet shared
 				}
 				na++
-				c.check(f == gen && states[in] == 2, "C05.R6", f, "access to "+fld+" under the generator's mutex", in.Pos(), "the access is inside Lock/Unlock", "the id counters are accessed without the generator's mutex (duplicate or unordered ids)")
+				c.check(genBody[f] != nil && genBody[f][in] == 2, "C05.R6", f, "access to "+fld+" under the generator's mutex", in.Pos(), "the access is inside Lock/Unlock", "the id counters are accessed without the generator's mutex (duplicate or unordered ids)")
 			}
 		}
 	}
@@ -455,7 +460,10 @@ func ruleC05R6(c *Ctx) {
 	// fixed-width, zero-padded format so that string order = (time, sequence) order
 	okFmt := false
 	whyFmt := "chunk ids are not fixed-width: sorting them as strings (recovery, leftovers) no longer gives creation order"
-	for _, s := range c.callsTo(gen, extPred("fmt.Sprintf")) {
+	for _, s := range c.sitesWhereR(gen, func(s ssa.CallInstruction) bool {
+		f := s.Common().StaticCallee()
+		return f != nil && extName(f) == "fmt.Sprintf"
+	}) {
 		mentions(s.Common().Args[0], func(v ssa.Value) bool {
 			if k, ok := v.(*ssa.Const); ok && k.Value != nil && k.Value.Kind() == constant.String {
 				f := constant.StringVal(k.Value)
